@@ -249,7 +249,23 @@ fn batch(
     }
     r.digest = h;
     if c.panic_only {
-        out.retain(|x| x.0 == "set_vs_with" || x.0 == "hidden_storage");
+        // no value oracle inside the field; but the set of bits the element names is determined, and every bit outside it must survive
+        let fm = seg.field_mask();
+        let keep: Vec<_> = out
+            .drain(..)
+            .filter_map(|x| match x.0.as_str() {
+                "set_vs_with" | "hidden_storage" => Some(x),
+                "frame" | "set_frame" => {
+                    if (x.3 & !fm) != (s & !fm) {
+                        Some((format!("{}_outside", x.0), x.1, s & !fm, x.3 & !fm))
+                    } else {
+                        None
+                    }
+                }
+                _ => None,
+            })
+            .collect();
+        *out = keep;
     }
 }
 
